@@ -568,6 +568,10 @@ def run(report, p):
             aware += [n for q in p.reachable([mf.qual]) if p.funcs[q].module.name.endswith(("history", "hashlist")) for n in ast.walk(p.funcs[q].node) if isinstance(n, ast.Attribute) and n.attr == "previous_path" and isinstance(n.ctx, ast.Load) and p.funcs[q].name not in ("append_hash", "log", "log_hash_entry")]
             r10.check(bool(aware), mf, lp, f"{mname} answers with the first record indexed under the name in any generation and never looks at the record's own path or previous path: after a.txt was renamed to b.txt (create -dr) and, one generation later, x.txt was renamed to a.txt, the new a.txt is judged against generation 1's record of the OLD a.txt - create -dr reports a hash mismatch (exit 11) on an unchanged file", construct="first hit by name ignores that the name changed hands")
 
+    from .common import include_rules
+
+    include_rules(report, p, 'c04', ['R4.9'], 'verify and diff find a renamed file through the `original` entry recorded under its new name: the rename matching must not relabel it')
+
     report.not_decided += ["the pairing produced for concrete sets of simultaneous renames", "renames of folders that contain nested histories"]
 
 
